@@ -42,6 +42,10 @@ Holds(ev, i, p) ==
     [] p = "C09" -> C09_OK(ev)
     [] p = "C09run" -> C09run_OK(ev)
     [] p = "C04" -> C04_OK(ev)
+    [] p = "C13" -> C13_OK(ev)
+    [] p = "C14arrow" -> C14arrow_OK(ev)
+    [] p = "C14bullet" -> C14bullet_OK(ev)
+    [] p = "C14corner" -> C14corner_OK(ev)
     [] p = "C05s" -> C05s_OK(ev)
     [] p = "C05box" -> C05box_OK(ev)
     [] p = "C06" -> C06_OK(ev, i)
@@ -49,6 +53,9 @@ Holds(ev, i, p) ==
     [] p = "C11" -> C11_OK(ev, i)
     [] p = "C17" -> C17_OK(ev, i)
     [] p = "C15" -> C15_OK(ev, i)
+    [] p = "C18" -> SettingsVariant(Base(ev, i), ev)
+    [] p = "C16legend" -> C16legend_OK(ev)
+    [] p = "C16tags" -> C16tags_OK(ev)
     [] p = "C02" -> C02_OK(ev)
     [] p = "C08" -> C08_OK(ev)
     [] OTHER -> FALSE      \* an unknown predicate name is reported, never silently accepted
@@ -62,6 +69,9 @@ NonTrivial(ev, i, p) ==
     [] p = "C02" -> C02_NT(ev)
     [] p = "C08" -> C08_NT(ev)
     [] p = "C04" -> C04_NT(ev)
+    [] p \in {"C13", "C14arrow", "C14bullet", "C14corner", "C18"} -> TRUE
+    [] p = "C16legend" -> Len(ev.legend.entries) > 0
+    [] p = "C16tags" -> Len(ev.tags) > 0
     [] p = "C05s" -> C05s_NT(ev)
     [] p = "C05box" -> TRUE
     [] p \in {"C06", "C10", "C11", "C17"} -> Len(ev.doc.elems) > 0
